@@ -20,6 +20,23 @@ package main
 //            w=<n> staged input: wait until the binary's stdout holds at least n bytes
 //                  (default 1) ...
 //            d=<milliseconds> ... or this much time has passed (default 2500)
+//            s=<kind> what KIND of file descriptor the binary's stdin is (the stdin field gives the
+//                  bytes; not with staged input): pipe (the default: a pipe the harness writes without
+//                  pausing and closes), file (a regular file opened for reading, as the shell's
+//                  `< data.json` or a here-document), empty (an empty regular file), null (/dev/null;
+//                  the bytes are ignored), socket (one end of a socket pair; the bytes are written to
+//                  the other end, which is then closed), closed (descriptor 0 is closed: `<&-`).
+//                  The model knows only bytes on stdin: give such a case a ModelReq without s=
+//            z     huge JSON output (deeply nested documents indent to megabytes): where stdout / the
+//                  -o file holds exactly one JSON document, `out` / `ofile` carry the hex of its
+//                  COMPACT form, and outraw / ofileraw the length of the text, outcanon / ofilecanon
+//                  whether the text is exactly encoding/json's two-space indentation of it
+//                  (implementation only)
+//            p=<run>[+<run>...] EARLIER RUNS of the binary in the same directory, before the run
+//                  under test (file-system history, C10): each <run> is its argument list, hex
+//                  arguments joined by "." ("e" = empty argument); stdin is /dev/null, stdout and
+//                  stderr are dropped, the exit status is ignored. The model does not know p=:
+//                  give such a case a ModelReq without it (the answer must not depend on it)
 //
 // Answer: R exit=<n> out=<hex stdout> errlen=<n> stderr=<hex> ofile=<hex | -> ofexists=<0|1> class=cli<n>
 // (class=nobinary when JQAWK_BIN is not set, class=timeout when the limit is hit); with a staged
@@ -102,6 +119,44 @@ func CliReq(argv []string, stdin []byte, hasStdin bool, files []CliFile, ofile s
 		fl = "o=" + hxs(ofile)
 	}
 	return "cli " + cliArgvField(argv) + " " + in + " " + cliFilesField(files) + " " + fl
+}
+
+// CliStdinKindReq: a "cli" request whose stdin is a descriptor of the given kind (see s= above)
+// carrying the bytes.
+func CliStdinKindReq(argv []string, stdin []byte, kind string, files []CliFile, ofile string) string {
+	req := CliReq(argv, stdin, true, files, ofile)
+	if kind == "" || kind == "pipe" {
+		return req
+	}
+	if strings.HasSuffix(req, " -") {
+		return strings.TrimSuffix(req, "-") + "s=" + kind
+	}
+	return req + ",s=" + kind
+}
+
+// CliHistoryReq: a "cli" request preceded by earlier runs of the binary (argument lists) in the
+// same directory.
+func CliHistoryReq(earlier [][]string, argv []string, stdin []byte, hasStdin bool, files []CliFile, ofile string) string {
+	req := CliReq(argv, stdin, hasStdin, files, ofile)
+	if len(earlier) == 0 {
+		return req
+	}
+	runs := make([]string, len(earlier))
+	for i, av := range earlier {
+		parts := make([]string, len(av))
+		for j, a := range av {
+			parts[j] = "e"
+			if a != "" {
+				parts[j] = hxs(a)
+			}
+		}
+		runs[i] = strings.Join(parts, ".")
+	}
+	p := "p=" + strings.Join(runs, "+")
+	if strings.HasSuffix(req, " -") {
+		return strings.TrimSuffix(req, "-") + p
+	}
+	return req + "," + p
 }
 
 // CliStagedReq builds a "cli" request whose input arrives in two parts: through stdin when
@@ -247,6 +302,9 @@ func implCli(fields []string) string {
 	limit := 10 * time.Second
 	waitBytes, waitLimit := 1, 2500*time.Millisecond
 	ofile := ""
+	var prelude [][]string
+	stdinKind := "pipe"
+	summarise := false
 	if fields[4] != "-" {
 		for _, fl := range strings.Split(fields[4], ",") {
 			num := func() (int, bool) {
@@ -260,6 +318,26 @@ func implCli(fields []string) string {
 					return "R class=badrequest"
 				}
 				ofile = string(b)
+			case fl == "z":
+				summarise = true
+			case strings.HasPrefix(fl, "s="):
+				stdinKind = fl[2:]
+			case strings.HasPrefix(fl, "p="):
+				for _, run := range strings.Split(fl[2:], "+") {
+					var av []string
+					for _, a := range strings.Split(run, ".") {
+						if a == "e" {
+							av = append(av, "")
+							continue
+						}
+						b, err := unhx(a)
+						if err != nil {
+							return "R class=badrequest"
+						}
+						av = append(av, string(b))
+					}
+					prelude = append(prelude, av)
+				}
 			case strings.HasPrefix(fl, "t="):
 				ms, ok := num()
 				if !ok {
@@ -283,9 +361,73 @@ func implCli(fields []string) string {
 	}
 	ctx, cancel := context.WithTimeout(context.Background(), limit)
 	defer cancel()
+	for _, av := range prelude {
+		pre := exec.CommandContext(ctx, bin, av...)
+		pre.Dir = dir
+		pre.Run() // whatever it does: only what it leaves behind in the directory matters
+	}
 	cmd := exec.CommandContext(ctx, bin, argv...)
+	if stdinKind == "closed" {
+		// the shell closes descriptor 0 and replaces itself by the binary, arguments untouched
+		cmd = exec.CommandContext(ctx, "/bin/sh", append([]string{"-c", `exec "$0" "$@" <&-`, bin}, argv...)...)
+	}
 	cmd.Dir = dir
 	switch {
+	case stdinKind != "pipe":
+		if staged || strings.Contains(fields[2], ":") {
+			if staged {
+				stageW.Close()
+			}
+			return "R class=badrequest"
+		}
+		var data []byte
+		if fields[2] != "-" && fields[2] != "e" {
+			if data, err = unhx(fields[2]); err != nil {
+				return "R class=badrequest"
+			}
+		}
+		switch stdinKind {
+		case "file", "empty":
+			if stdinKind == "empty" {
+				data = nil
+			}
+			tf, err := os.CreateTemp("", "jqawk-stdin-")
+			if err != nil {
+				return "R class=crash msg=no_temp_file"
+			}
+			defer os.Remove(tf.Name())
+			tf.Write(data)
+			tf.Close()
+			rf, err := os.Open(tf.Name())
+			if err != nil {
+				return "R class=crash msg=cannot_reopen_temp_file"
+			}
+			defer rf.Close()
+			cmd.Stdin = rf
+		case "null":
+			nf, err := os.Open(os.DevNull)
+			if err != nil {
+				return "R class=crash msg=no_dev_null"
+			}
+			defer nf.Close()
+			cmd.Stdin = nf
+		case "socket":
+			fds, err := syscall.Socketpair(syscall.AF_UNIX, syscall.SOCK_STREAM|syscall.SOCK_CLOEXEC, 0)
+			if err != nil {
+				return "R class=crash msg=no_socketpair"
+			}
+			wr, rd := os.NewFile(uintptr(fds[0]), "stdin-socket-w"), os.NewFile(uintptr(fds[1]), "stdin-socket-r")
+			defer rd.Close()
+			go func() {
+				wr.Write(data)
+				wr.Close()
+			}()
+			cmd.Stdin = rd
+		case "closed":
+			// nothing: the shell closes it (cmd.Stdin == nil gives the shell /dev/null first)
+		default:
+			return "R class=badrequest"
+		}
 	case strings.Contains(fields[2], ":"):
 		if staged {
 			stageW.Close()
@@ -365,10 +507,15 @@ func implCli(fields []string) string {
 		return "R class=crash msg=" + strings.ReplaceAll(fmt.Sprint(runErr), " ", "_")
 	}
 	exit := cmd.ProcessState.ExitCode()
-	of, ofexists := "-", 0
+	of, ofexists := "ofile=-", 0
 	if ofile != "" {
 		if b, err := os.ReadFile(filepath.Join(dir, ofile)); err == nil {
-			of, ofexists = hx(b), 1
+			of, ofexists = "ofile="+hx(b), 1
+			if summarise {
+				if f, ok := summariseJSON("ofile", string(b)); ok {
+					of = f
+				}
+			}
 		}
 	}
 	errFlag := 0
@@ -376,5 +523,11 @@ func implCli(fields []string) string {
 		errFlag = 1
 	}
 	outB := so.snapshot()
-	return fmt.Sprintf("R exit=%d out=%s err=%d errlen=%d stderr=%s ofile=%s ofexists=%d%s class=cli%d", exit, hx(outB), errFlag, se.Len(), hx(se.Bytes()), of, ofexists, extra, exit)
+	outF := "out=" + hx(outB)
+	if summarise {
+		if f, ok := summariseJSON("out", string(outB)); ok {
+			outF = f
+		}
+	}
+	return fmt.Sprintf("R exit=%d %s err=%d errlen=%d stderr=%s %s ofexists=%d%s class=cli%d", exit, outF, errFlag, se.Len(), hx(se.Bytes()), of, ofexists, extra, exit)
 }
